@@ -10,7 +10,7 @@ python3 - "$D" "$SID" "$PROP" "$CHANGE" "$NEEDS" <<'PY'
 import json,sys
 d,sid,prop,change,needs=sys.argv[1:6]
 json.dump({"breaks_property":prop,"change":change,"needs_to_manifest":needs,
- "origin":"written by an independent sub-agent given only the property text and a scratch worktree of /repo (nothing from /verif); round 2: asked for changes needing a rarer trigger",
+ "origin":"written by an independent sub-agent given only the property text and a scratch worktree of /repo (nothing from /verif); " + ("round 3: asked for changes designed to evade a differential tester that enumerates 8/16-bit types and samples random + boundary values" if __import__("os").environ.get("ROUND") == "3" else "round 2: asked for changes needing a rarer trigger"),
  "confirmed":"tools/confirm_mutant.sh: demo exits 0 on the clean tree; with the patch applied the crate builds (default and numtraits,rand), `cargo test --workspace --no-fail-fast --offline` reports 1945 + 224 passed / 0 failed, and the demo exits non-zero (debug and release)",
  "detected_by":[], "how_run":"tools/seedrun.sh /verif/seeded/%s/patch.diff %s"%(sid,prop),
  "demo":"demo.rs is the main.rs of a scratch crate with demo_Cargo.toml (bnum path dependency on the mutated tree)"},open(d+"/meta.json","w"),indent=1)
